@@ -4,7 +4,7 @@ validate_figure_data (FileNotFoundError for a missing figure file).  The callee 
 contract (unit ValidateSectionColumns): it returns exactly when every key of the section's body names a column of the section's
 frame, and raises ValueError otherwise."""
 import z3
-from z3 import And, Or, Not, Implies, ForAll, Exists, IntVal
+from z3 import And, Or, Not, Implies, ForAll, Exists, If, IntVal
 
 from pyvc.contract import Contract
 from pyvc.interp import LoopSpec
@@ -181,9 +181,12 @@ class ValidateFigureData(Contract):
             paths = c.alloc(ListObj(items=[figs], fresh=False))
         else:
             figs = paths = c.fresh("paths", T.List(T.Str))
-        me = c.alloc(RecObj("RTFFigure", {"figures": figs}, pyclass=cls, fresh=False))
+        fw, fh = c.fresh("fig_width", T.List(T.Real)), c.fresh("fig_height", T.List(T.Real))
+        align, pos = c.fresh("fig_align", T.Str), c.fresh("fig_pos", T.Str)
+        me = c.alloc(RecObj("RTFFigure", {"figures": figs, "fig_width": fw, "fig_height": fh, "fig_align": align, "fig_pos": pos}, pyclass=cls, fresh=False))
         c.bind("self", me)
-        c.v.update(me=me, paths=paths, figs=figs)
+        c.requires("size_lists_nonempty", And(c.obj(fw).length >= 1, c.obj(fh).length >= 1))       # convert_dimensions wraps scalars; [] is outside the domain
+        c.v.update(me=me, paths=paths, figs=figs, fw=fw, fh=fh, fw_len=c.obj(fw).length, fh_len=c.obj(fh).length, fw_get=c.obj(fw).get, fh_get=c.obj(fh).get)
 
     def _all_exist(self, c, st):
         if c.variant == "none":
@@ -221,6 +224,18 @@ class ValidateFigureData(Contract):
         cl = {"C19.accepted_only_when_every_figure_file_exists": self._all_exist(c, st),
               "returns_the_figure": z3.BoolVal(_same(out.value, c.v["me"]))}
         f = st.obj(c.v["me"]).fields["figures"]
+        # the size of figure i - positional, the last value reused when the list is shorter (unit GetDimension reads it that way at encoding
+        # time) - is the user's, for every i (a validator may normalise the lists but must not change any figure's size)
+        k = z3.Int("k")
+        eff = lambda n, g, i: g(If(i < to_z3(n), i, to_z3(n) - 1))
+        for nm, ln, get in (("fig_width", c.v["fw_len"], c.v["fw_get"]), ("fig_height", c.v["fh_len"], c.v["fh_get"])):
+            cur = st.obj(c.v["me"]).fields.get(nm)
+            if not isinstance(cur, Ref):
+                cl[f"C16.{nm}_of_every_figure_is_the_users_positional_value_last_one_reused"] = z3.BoolVal(False)
+                continue
+            n2, g2 = as_symlist(st, st.obj(cur))
+            cl[f"C16.{nm}_of_every_figure_is_the_users_positional_value_last_one_reused"] = And(
+                to_z3(n2) >= 1, ForAll([k], Implies(k >= 0, to_z3(eff(n2, g2, k)) == to_z3(eff(ln, get, k)))))
         if c.variant == "none":
             cl["no_figures_stays_none"] = z3.BoolVal(f is None)
         elif c.variant == "list":
